@@ -276,11 +276,17 @@ def check_pair(prop, pair, tier, keep):
                 samples.append({"id": pid, "text": desc[:200]})
         elif "unwind" in pid and st == "FAILURE":
             res["unwind_failed"].append(pid)
+        elif st == "ERROR":
+            res["solver_error"] = True
         elif st != "FAILURE":
             res["unknown"].append(pid)      # UNKNOWN: only reachable past a failed obligation
         else:
             res["failed"].append({"id": pid, "text": desc[:300], "loc": r.get("sourceLocation", {})})
     res["samples"] = samples
+    if res.get("solver_error"):
+        res.update(status="error", reason="solver error (out of memory?): obligations with status ERROR")
+        res["wall_s"] = time.time() - t0
+        return res
     if not pair.get("noreach"):
         if reach is None:
             res.update(status="error", reason="harness has no VC_REACH marker")
@@ -343,10 +349,10 @@ def extract_inputs(trace):
         if isinstance(val, str):
             val = re.sub(r"(?<=\d)(ul|l|u|ull|ll)$", "", val)
         fn = st.get("sourceLocation", {}).get("function", "")
-        if fn.startswith("vc_nondet_") and lhs == "vc_val":
+        if fn.startswith("vc_nd_") and lhs == "vc_val":
             pending = {"draw": fn, "value": val}
             vals.append(pending)
-        elif pending is not None and not fn.startswith("vc_nondet_") and not lhs.startswith("return_value_") \
+        elif pending is not None and not fn.startswith("vc_nd_") and not lhs.startswith("return_value_") \
                 and not lhs.startswith("goto_symex"):
             pending["name"] = lhs
             pending = None
